@@ -7,7 +7,9 @@ import checklib as cl
 from props import server_common as S
 
 CASES = [("おさけ", "御酒", "おさけ", "御酒"), ("しんかこか", "新過去か", "しんかこ", "新過去"), ("しんかこか", "新過去化", "しんかこか", "新過去化"),
-         ("おやま", "御山", "おやま", "御山"), ("やまか", "山化", "やまか", "山化")]
+         ("おやま", "御山", "おやま", "御山"), ("やまか", "山化", "やまか", "山化"), ("かこか", "過去化", "かこか", "過去化")]
+# a text that exists only if the learned compound is ONE word of the running dictionary (suffix does not follow suffix)
+ONLY_VIA_COMPOUND = {"過去化": ("かこかてき", "過去化的"), "山化": ("やまかてき", "山化的"), "新過去化": ("しんかこかてき", "新過去化的")}
 
 
 def run_part(run, fails, stats):
@@ -33,6 +35,12 @@ def run_part(run, fails, stats):
             stats["compounds_confirmed"] += 1
             r.settle(1)
             w = {"input": inp, "confirmed": cand, "expected_compound": [comp, rd]}
+            if comp in ONLY_VIA_COMPOUND:
+                pin, ptext = ONLY_VIA_COMPOUND[comp]
+                got = S.texts(r.conv("normal", pin)) or []
+                if ptext not in got:
+                    fails.append(("compound-not-one-word", {"kind": "compound-not-convertible", "via": "following-suffix"},
+                                  dict(w, probe=pin, expected=ptext, candidates=got)))
             after = S.texts(r.conv("normal", rd)) or []
             if comp not in after:
                 fails.append(("compound-not-convertible", {"kind": "compound-not-convertible"}, dict(w, candidates_for_compound_reading=after)))
@@ -70,6 +78,36 @@ def run_part(run, fails, stats):
                 r.dump()
         finally:
             r.stop()
+    # a periodic save that falls between the acknowledgement and the updater's application of the compound must not make
+    # the compound unsaved for good
+    import time
+    ud = os.path.join(wd, "slow-user")
+    os.makedirs(ud, exist_ok=True)
+    srv = S.Server(bindir, dic, ud, workers=4, save_secs=1, env={"CHOKAN_VERIF_DELAY_UPDATER": "2500"})
+    try:
+        if srv.wait_listening():
+            res = srv.conv("おさけ")
+            ts = S.texts(res) or []
+            if "御酒" in ts:
+                srv.rpc("UpdateFrequency", {"session_id": res[1]["session_id"], "candidate_id": str(ts.index("御酒"))})
+                stats["compounds_confirmed"] += 1
+                line = "おさけ\t御酒\t/一般名詞/"
+                p_ = os.path.join(ud, "user.dic")
+                saved = S.wait_until(lambda: os.path.exists(p_) and line in open(p_, encoding="utf-8", errors="replace").read().split("\n"), 9.0)
+                w = {"input": "おさけ", "confirmed": "御酒", "updater_delay_ms": 2500, "save_period_s": 1}
+                if saved is None:
+                    fails.append(("compound-not-saved", {"kind": "compound-not-saved", "phase": "slow-updater"},
+                                  dict(w, user_dic=open(p_, encoding="utf-8", errors="replace").read() if os.path.exists(p_) else None)))
+                else:
+                    srv.stop()
+                    srv = S.Server(bindir, dic, ud, workers=4, save_secs=1)
+                    if srv.wait_listening():
+                        d = srv.dump()
+                        if d is None or line not in d["user_entries"]:
+                            fails.append(("compound-lost-by-restart", {"kind": "compound-lost-by-restart", "phase": "slow-updater"},
+                                          dict(w, user_entries=d and d["user_entries"])))
+    finally:
+        srv.stop()
     dis = S.compare_with_model(run, runners)
     run.cov["server_model_disagreements"] = len(dis)
     if dis and not fails:
